@@ -237,6 +237,13 @@ class Constant(DataclassHideDefault):
             return False
         return constant_key(self.constant) == constant_key(__o.constant)
 
+    def __hash__(self) -> int:
+        # Hash what __eq__ compares, so that equal constants (i.e. two nan objects)
+        # have equal hashes
+        from ._constants import constant_key
+
+        return hash((constant_key(self.constant), self._index_override))
+
 
 @dataclass(frozen=True)
 class Freevar(DataclassHideDefault):
